@@ -86,6 +86,16 @@ func (ex *Exec) atReturn(st *State, r *ssa.Return) {
 			}
 		}
 	}
+	// type invariants of returned objects (constructors, setters returning the receiver)
+	if ex.fn.Synthetic == "" {
+		for i, v := range r.Results {
+			for _, ti := range ex.typeInvsFor(v.Type()) {
+				e := &Env{st: st, pkgPath: ti.PkgPath, info: ex.prog.infoFor(ti.PkgPath), vars: map[string]BVal{}, cur: st.heap, old: st.entry, allocLo: st.alloc0}
+				e.vars[ti.Recv.Name] = BVal{Val: results[i]}
+				st.check("typeinv:"+ti.Name, "ensures", implies(neq(results[i], st.u().zero(results[i].Sort)), e.eval(ti.Requires[0].Expr)), "returned object satisfies the type invariant: "+ti.Requires[0].Text, ti.Props, r.Pos())
+			}
+		}
+	}
 	st.check("cover/return", "cover", tFalse, "vacuity probe: this return must be reachable (expected sat)", nil, r.Pos())
 }
 
@@ -719,7 +729,10 @@ func (ex *Exec) applyContract(st *State, c *ssa.Call, con0 *Contract, bindings [
 		if len(bs) == len(args)+1 && con.Kind == "interface" {
 			// an interface-method contract applied to a plain function value: the receiver binder is the function value
 			t := ex.typeOfBinder(con, bs[0])
-			e.vars[bs[0].Name] = BVal{Val: st.sc.fresh("self", st.u().sortOf(t))}
+			sv := st.sc.fresh("self", st.u().sortOf(t))
+			st.sc.ensureSort(sv.Sort)
+			st.sc.assert(neq(sv, st.u().zero(sv.Sort)))
+			e.vars[bs[0].Name] = BVal{Val: sv}
 			off = 1
 		} else if len(bs) == len(args)+1 && con.Kind == "functype" && fval != nil {
 			// functype contract with a leading `self` binder: the function value being called
@@ -1164,32 +1177,84 @@ func (ex *Exec) checkRefinement(st *State, outer *Env, kc *Contract, fval ssa.Va
 
 // applyPureClosure: value of call(f, args) for a closure whose contract has a
 // defining postcondition `ensures [def] r == E`.
-func (ex *Exec) applyPureClosure(e *Env, n ast.Node, bv BVal, args []Term) Term {
-	if bv.SSA == nil {
-		e.fail(n, "call(): the function value is not statically known here")
-	}
-	fc, bindings := ex.closureContract(bv.SSA)
-	if fc == nil {
-		e.fail(n, "call(): function value has no contract")
-	}
-	var def *Clause
+// pureDefOf: the defining expression `E` of a closure contract with `ensures [def] r == E`
+func pureDefOf(fc *Contract) ast.Expr {
 	for _, cl := range fc.Ensures {
 		if cl.Label == "def" {
-			def = cl
+			if be, ok := cl.Expr.(*ast.BinaryExpr); ok && be.Op == token.EQL {
+				return be.Y
+			}
 		}
 	}
-	if def == nil {
-		e.fail(n, "call(): contract of %s has no `ensures [def] r == E` clause", fc.Name)
+	return nil
+}
+
+// applySymbol: uninterpreted application of a function value to arguments, by signature
+func (st *State) applySymbol(args []Term, rs Sort) string {
+	name := "apply"
+	sorts := []Sort{SInt}
+	for _, a := range args {
+		name += "." + string(a.Sort)
+		sorts = append(sorts, a.Sort)
 	}
-	be, ok := def.Expr.(*ast.BinaryExpr)
-	if !ok || be.Op != token.EQL {
-		e.fail(n, "call(): def clause of %s is not of the form r == E", fc.Name)
+	name += "/" + string(rs)
+	st.sc.declFun(name, sorts, rs)
+	return name
+}
+
+// applyPureClosure: value of call(f, args). For a statically known closure whose contract has a
+// defining postcondition `ensures [def] r == E` the definition is expanded; otherwise the value is
+// the uninterpreted application apply(f, args), which MakeClosure ties to the definition for every
+// closure created with such a contract.
+func (ex *Exec) applyPureClosure(e *Env, n ast.Node, bv BVal, args []Term, fterm Term, rs Sort) Term {
+	if bv.SSA != nil {
+		if fc, bindings := ex.closureContract(bv.SSA); fc != nil {
+			if def := pureDefOf(fc); def != nil && (len(fc.Captures) == 0 || bindings != nil) {
+				fe := ex.closureEnv(e.st, fc, bindings, e)
+				for i, b := range fc.Params {
+					fe.vars[b.Name] = BVal{Val: args[i]}
+				}
+				return fe.eval(def)
+			}
+		}
 	}
-	fe := ex.closureEnv(e.st, fc, bindings, e)
+	return app(rs, e.st.applySymbol(args, rs), append([]Term{fterm}, args...)...)
+}
+
+// closureDefAxiom: at the creation of a closure whose contract has a defining postcondition, tie the
+// uninterpreted application of the new function value to that definition (captured variables as they
+// are now; the library never reassigns construction-time captures)
+func (ex *Exec) closureDefAxiom(st *State, mc *ssa.MakeClosure, id Term) {
+	fn := mc.Fn.(*ssa.Function)
+	fc := ex.prog.Contracts[keyOfFunction(fn)]
+	if fc == nil {
+		return
+	}
+	def := pureDefOf(fc)
+	if def == nil || len(fc.Results) != 1 {
+		return
+	}
+	base := &Env{st: st, cur: st.heap, old: st.heap, allocLo: st.alloc0}
+	fe := ex.closureEnv(st, fc, mc.Bindings, base)
+	var binders []string
+	var args []Term
 	for i, b := range fc.Params {
-		fe.vars[b.Name] = BVal{Val: args[i]}
+		s := st.u().sortOf(fn.Params[i].Type())
+		st.sc.ensureSort(s)
+		st.sc.nfresh++
+		v := Term{fmt.Sprintf("%s!c%d", b.Name, st.sc.nfresh), s}
+		fe.vars[b.Name] = BVal{Val: v}
+		binders = append(binders, fmt.Sprintf("(%s %s)", v.S, s))
+		args = append(args, v)
 	}
-	return fe.eval(be.Y)
+	rs := st.u().sortOf(fn.Signature.Results().At(0).Type())
+	body := fe.eval(def)
+	lhs := app(rs, st.applySymbol(args, rs), append([]Term{id}, args...)...)
+	if len(binders) == 0 {
+		st.sc.assert(eq(lhs, body))
+		return
+	}
+	st.sc.emit("(assert (forall (%s) (! (= %s %s) :pattern (%s))))", strings.Join(binders, " "), lhs.S, body.S, lhs.S)
 }
 
 // rangeSliceOf: for a rangeindex loop, the slice value indexed by the loop's index
